@@ -291,6 +291,23 @@ func (self Value) GetByPathWithAddress(pathes ...Path) (Value, []int) {
 	return self.getByPath(pathes...)
 }
 
+// skipAllElements skips a whole LIST/MAP field, walking a packed list by the wire type of its elements
+func skipAllElements(p *binary.BinaryProtocol, id proto.FieldNumber, desc *proto.TypeDescriptor) (int, error) {
+	if desc.IsPacked() {
+		return p.SkipAllElementsByType(id, true, desc.Elem().WireType())
+	}
+	return p.SkipAllElements(id, false)
+}
+
+// errCodeOf returns the error code carried by an error node, or ErrRead for any other error
+// (the protocol readers return plain meta errors)
+func errCodeOf(err error) meta.ErrCode {
+	if en, ok := err.(Node); ok {
+		return en.ErrCode().Behavior()
+	}
+	return meta.ErrRead
+}
+
 // inner use
 func (self Value) getByPath(pathes ...Path) (Value, []int) {
 	address := make([]int, len(pathes))
@@ -419,8 +436,7 @@ func (self Value) getByPath(pathes ...Path) (Value, []int) {
 			if i == len(pathes)-1 && err == errNotFound {
 				return Value{errNotFoundLast(unsafe.Pointer(uintptr(self.v)+uintptr(start)), tt), nil, false}, address
 			}
-			en := err.(Node)
-			return errValue(en.ErrCode().Behavior(), "invalid value node.", err), address
+			return errValue(errCodeOf(err), "invalid value node.", err), address
 		}
 		// if not the last one, it must be a complex node, so need to skip tag
 		if i != len(pathes)-1 {
@@ -436,17 +452,15 @@ func (self Value) getByPath(pathes ...Path) (Value, []int) {
 	case proto.MAP:
 		kt = desc.Key().Type()
 		et = desc.Elem().Type()
-		if s, err := p.SkipAllElements(desc.BaseId(), desc.IsPacked()); err != nil {
-			en := err.(Node)
-			return errValue(en.ErrCode().Behavior(), "invalid map node.", err), address
+		if s, err := skipAllElements(&p, desc.BaseId(), desc); err != nil {
+			return errValue(errCodeOf(err), "invalid map node.", err), address
 		} else {
 			size = s
 		}
 	case proto.LIST:
 		et = desc.Elem().Type()
-		if s, err := p.SkipAllElements(desc.BaseId(), desc.IsPacked()); err != nil {
-			en := err.(Node)
-			return errValue(en.ErrCode().Behavior(), "invalid list node.", err), address
+		if s, err := skipAllElements(&p, desc.BaseId(), desc); err != nil {
+			return errValue(errCodeOf(err), "invalid list node.", err), address
 		} else {
 			size = s
 		}
@@ -982,13 +996,15 @@ func (self Value) FieldByName(name string) (v Value) {
 			typDesc := f.Type()
 			if typDesc.IsMap() || typDesc.IsList() {
 				it.p.Read = tagPos
-				if _, err := it.p.SkipAllElements(i, typDesc.IsPacked()); err != nil {
+				size, err := skipAllElements(&it.p, i, typDesc)
+				if err != nil {
 					return errValue(meta.ErrRead, "SkipAllElements in LIST/MAP failed", err)
 				}
 				s = tagPos
 				e = it.p.Read
 
 				v = self.sliceWithDesc(s, e, typDesc)
+				v.size = size
 				goto ret
 			}
 
